@@ -27,17 +27,17 @@ def _is_as(kind, b):
 from cliutil import fmt_in as _fmt_in, fmt_out as _fmt_out, result as _cli_result, CliMalformed as _CliMalformed   # noqa: E402
 
 
-def _cli_enc(b, fmt, check):
-    import cli
+def _cli_enc(b, fmt, check, via="stdin"):
+    import cliutil
     argv = ["base58"] + (["--check"] if check else []) + ["-1", fmt]
-    return _cli_result(cli.run_main(argv, stdin=_fmt_in(b, fmt)))
+    return _cli_result(cliutil.run(argv, _fmt_in(b, fmt), via))
 
 
-def _cli_dec(s, fmt, check, pr):
-    import cli, os
+def _cli_dec(s, fmt, check, pr, via="stdin"):
+    import cliutil, os
     argv = ["base58", "--decode"] + (["--check"] if check else []) + (["--print"] if pr else [])
     # the sub-parser has no -0 option: the output format comes from the configuration file
-    out = _cli_result(cli.run_main(argv, stdin=s, config_json={"output_format": fmt}))
+    out = _cli_result(cliutil.run(argv, s, via, config_json={"output_format": fmt}))
     if pr:          # --print appends os.linesep to the decoded bytes before they are formatted
         d = _fmt_out(out, fmt)
         nl = os.linesep.encode()
@@ -47,11 +47,28 @@ def _cli_dec(s, fmt, check, pr):
     return _fmt_out(out, fmt)
 
 
+def _twice(op, a, b):
+    """the caller keeps ONE bytearray: holds a, calls op, overwrites it in place with b, calls op again (a read loop
+    re-using its buffer); returns both answers, each as ("ok", value) / ("err",)"""
+    f = getattr(_impl(), op)
+    buf = bytearray(a)
+    out = []
+    for content in (a, b):
+        buf[:] = content
+        try:
+            v = f(buf)
+            out.append(["ok", bytes(v) if isinstance(v, (bytes, bytearray)) else v])
+        except Exception:
+            out.append(["err", None])
+    return out
+
+
 IMPL = {
-    "cli_base58encode": lambda b, fmt: _cli_enc(b, fmt, False),
-    "cli_base58check": lambda b, fmt: _cli_enc(b, fmt, True),
-    "cli_base58decode": lambda s, fmt, pr: _cli_dec(s, fmt, False, pr),
-    "cli_base58check_decode": lambda s, fmt, pr: _cli_dec(s, fmt, True, pr),
+    "cli_base58encode": lambda b, fmt, via="stdin": _cli_enc(b, fmt, False, via),
+    "cli_base58check": lambda b, fmt, via="stdin": _cli_enc(b, fmt, True, via),
+    "cli_base58decode": lambda s, fmt, pr, via="stdin": _cli_dec(s, fmt, False, pr, via),
+    "cli_base58check_decode": lambda s, fmt, pr, via="stdin": _cli_dec(s, fmt, True, pr, via),
+    "twice_in_one_buffer": lambda op, a, b: _twice(op, a, b),
     "is_base58check_as": _is_as,
     "base58encode": lambda b: _impl().base58encode(b),
     "base58decode": lambda s: _impl().base58decode(s),
@@ -142,15 +159,36 @@ def gen_cases(rng, tier):
     for d in datas[:8] + datas[-(60 if T else 14):]:
         fmt = ("raw", "hex", "bin")[k % 3]
         k += 1
-        out.append(case("cli-enc-" + fmt, "cli_base58encode", d, fmt))
-        out.append(case("cli-check-" + fmt, "cli_base58check", d, fmt))
+        via = ("stdin", "file", "stdin+out", "file+out")[(k // 3) % 4]
+        out.append(case("cli-enc-%s-%s" % (fmt, via), "cli_base58encode", d, fmt, via))
+        out.append(case("cli-check-%s-%s" % (fmt, via), "cli_base58check", d, fmt, via))
     cl = [s for s in strs if s[0] in ("valid", "subst", "subst-bad", "insert-bad", "delete", "transpose", "short", "lead1")]
     for cls, s in (cl[:6] + cl[78:84] + cl[158:164] + rng.sample(cl, 120 if T else 24)):
         fmt = ("raw", "hex", "bin")[k % 3]
         k += 1
         pr = (k // 3) % 4 == 0
-        out.append(case("cli-dec-" + cls, "cli_base58decode", s, fmt, pr, strict=True))
-        out.append(case("cli-cdec-" + cls, "cli_base58check_decode", s, fmt, pr, strict=True))
+        via = ("stdin", "file")[(k // 2) % 2]
+        out.append(case("cli-dec-%s-%s" % (cls, via), "cli_base58decode", s, fmt, pr, via, strict=True))
+        out.append(case("cli-cdec-%s-%s" % (cls, via), "cli_base58check_decode", s, fmt, pr, via, strict=True))
+    # a valid encoding followed / preceded by whitespace is NOT in the alphabet: refused on stdin and through -i FILE
+    for s0 in valid[1:4] + validc[1:6]:
+        for ws in (b"\n", b"\r\n", b" ", b"\t", b"\n\n", b"\0"):
+            for s in (s0 + ws, ws + s0):
+                for via in ("stdin", "file"):
+                    k += 1
+                    if not T and k % 3:
+                        continue
+                    out.append(case("cli-dec-ws-" + via, "cli_base58decode", s, "hex", False, via, strict=True))
+                    out.append(case("cli-cdec-ws-" + via, "cli_base58check_decode", s, "raw", False, via, strict=True))
+                strs.append(("ws", s))
+    # one caller-owned buffer holding first a valid, then an invalid string (and the reverse)
+    inval = [s for c_, s in strs if c_ in ("subst", "subst-bad", "delete", "short", "ws")]
+    for i in range(1, 40 if T else 12):
+        bad = inval[(7 * i) % len(inval)]
+        for op, sv in (("base58decode", valid[i]), ("base58check_decode", validc[i]), ("is_base58check", validc[i])):
+            out.append(case("one-buffer-valid-then-invalid", "twice_in_one_buffer", op, sv, bad))
+            out.append(case("one-buffer-invalid-then-valid", "twice_in_one_buffer", op, bad, sv))
+            out.append(case("one-buffer-valid-then-valid", "twice_in_one_buffer", op, sv, validc[i + 1] if op != "base58decode" else valid[i + 1]))
     for cls, s in strs:
         out.append(case("dec-" + cls, "base58decode", s, strict=True))
         out.append(case("cdec-" + cls, "base58check_decode", s, strict=True))
@@ -163,11 +201,14 @@ def model_call(c):
     op = c["op"]
     if op.startswith("cli_"):
         return "c07_" + op[4:], c["args"][:1]
+    if op == "twice_in_one_buffer":            # a sequence of two model calls (common.model_eval)
+        f, a, b = c["args"]
+        return [("c07_" + f, [a]), ("c07_" + f, [b])]
     return "c07_" + op, c["args"]
 
 
 def shrink(c):
-    if c["op"] == "is_base58check_as":
+    if c["op"] in ("is_base58check_as", "twice_in_one_buffer"):
         return
     for b in shrink_bytes(c["args"][0]):
         c2 = dict(c)
@@ -184,6 +225,24 @@ def prop_oracle(c):
         except Exception as e:
             return "is_base58check raised %s instead of returning a boolean" % type(e).__name__
         return None if isinstance(r, bool) else "is_base58check returned a non-boolean"
+    if c["op"] == "twice_in_one_buffer":
+        f, a, b = c["args"]
+        fresh = []
+        for content in (a, b):
+            try:
+                v = getattr(m, f)(bytes(content))
+                fresh.append(["ok", v])
+            except Exception:
+                fresh.append(["err", None])
+        got = _twice(f, a, b)
+        if got != fresh:
+            return ("%s on one caller-owned bytearray holding first %r then (overwritten in place) %r answers %r; "
+                    "on fresh bytes objects it answers %r" % (f, a, b, got, fresh))
+        for content in (a, b):
+            r = prop_oracle({"op": f, "args": [content]})
+            if r:
+                return r
+        return None
     x = c["args"][0]
     op = c["op"]
     if op.startswith("cli_"):
@@ -246,7 +305,7 @@ def prop_oracle(c):
 
 
 def coq_equation(c, mr):
-    if c["op"] == "is_base58check_as" or c["op"].startswith("cli_"):
+    if c["op"] in ("is_base58check_as", "twice_in_one_buffer") or c["op"].startswith("cli_"):
         return None
     """the same computation as a Coq term, for the vm_compute cross-check of the extraction"""
     a = coq_bytes(c["args"][0])
